@@ -265,7 +265,7 @@ hypotheses `IgnoresTrailingWs` / `DirectHolds` of `stored_equal` become theorems
 third-party: `env.parseReal` (`f32::from_str`) and the filter chain `dec`. -/
 
 section Concrete
-open PdfLex
+open PdfLex PdfShift
 open PdfSyntax (Gap Bnd Spells needsBnd KeysDistinct namesUtf8 vdepth need wf_of NatTok)
 
 variable {R : Type}
